@@ -123,7 +123,7 @@ def classify_c01(step, detail, root):
     try:
         ast.parse(root.src)
     except SyntaxError as e:
-        if 'illegal target for annotation' in str(e) and re_search(r'^\s*\(+\s*\w+\s*\)+\s*[.\[]', root.src):
+        if 'illegal target for annotation' in str(e) and re_search(r'^\s*\(+[\s\\]*\w+[\s\\]*\)+[\s\\]*[.\[]', root.src):
             return 'annassign-target-base-left-as-parenthesized-name'
     except Exception:
         pass
